@@ -349,10 +349,13 @@ func genC12(m *M, budget int) {
 					if a != b && f.rng.Intn(2) == 0 { // operands whose STORED forms differ in one limb / one bit only
 						am := mulmod(new(big.Int).SetBytes(f.F[a].Bytes()), bigR, bigP)
 						var dm *big.Int
-						if f.rng.Intn(2) == 0 {
+						switch f.rng.Intn(3) {
+						case 0:
 							dm = new(big.Int).Lsh(new(big.Int).SetUint64(f.rng.Uint64()|1), uint(64*f.rng.Intn(4)))
-						} else {
+						case 1:
 							dm = new(big.Int).Lsh(one, uint(f.rng.Intn(256)))
+						default: // related limb differences (equal in two limbs, ...)
+							dm = f.limbStruct()
 						}
 						am.Xor(am, dm)
 						if am.Cmp(bigP) < 0 {
